@@ -256,13 +256,15 @@ def r2_logs(src, log):
     return _replace(src, edits)
 
 
-def r3_await(src, log):
+def r3_await(src, log, as_call=False):
+    """`.await` is removed (each await is an atomic call to a contract-bearing stub) - or, with awaitcall=1, replaced by
+    a call `.await_()` so that awaiting a stored future is a visible step with its own contract"""
     toks = lex(src); s = sig(toks)
     edits = []
     for k, i in enumerate(s):
         t = toks[i]
         if t.kind == "ident" and t.text == "await" and k > 0 and toks[s[k - 1]].text == ".":
-            edits.append((toks[s[k - 1]].start, t.end, ""))
+            edits.append((toks[s[k - 1]].start, t.end, ".await_()" if as_call else ""))
         if t.kind == "ident" and t.text == "async" and k + 1 < len(s) and toks[s[k + 1]].text == "fn":
             edits.append((t.start, toks[s[k + 1]].start, ""))
     log["R3"] = log.get("R3", 0) + len(edits)
@@ -697,6 +699,39 @@ def r21_streq(src, log):
 
 
 
+def r22_rpc(src, log):
+    """`E.rpc::<Op<..>, _>(CLOSURE)` -> `E.rpc_Op()`: the request-building closure is dropped (what may be built is the
+    business of the capability gates, unit a5); the operation's identity is kept in the shim method's name."""
+    n = 0
+    while True:
+        toks = lex(src); m = match_brackets(toks); s = sig(toks)
+        hit = None
+        for k, i in enumerate(s):
+            if toks[i].text == "." and k + 5 < len(s) and toks[s[k + 1]].text == "rpc" and toks[s[k + 2]].text == ":" \
+                    and toks[s[k + 3]].text == ":" and toks[s[k + 4]].text == "<" and toks[s[k + 5]].kind == "ident":
+                op = toks[s[k + 5]].text
+                j = k + 5
+                depth = 1
+                while depth and j + 1 < len(s):
+                    j += 1
+                    if toks[s[j]].text == "<":
+                        depth += 1
+                    elif toks[s[j]].text == ">" and toks[s[j - 1]].text != "-":
+                        depth -= 1
+                if toks[s[j + 1]].text != "(":
+                    continue
+                c = m[s[j + 1]]
+                hit = (toks[s[k + 1]].start, toks[c].end, "rpc_%s()" % op)
+                break
+        if hit is None:
+            break
+        src = _replace(src, [hit])
+        n += 1
+    log["R22"] = log.get("R22", 0) + n
+    return src
+
+
+
 def r11_bytelits(src, log, table):
     """b"lit" -> blit_<n>()  ; table collects the generated external_body functions.
     `E == b"lit"` (slice equality against a literal) -> `bytes_eq(E, blit_<n>())`, where the shim
@@ -737,7 +772,7 @@ def r11_bytelits(src, log, table):
     return _replace(src, edits)
 
 
-def r12_for(src, log):
+def r12_for(src, log, into_iter=""):
     """for P in E { B }  ->  { let mut it__ = E; loop { match it__.next() { Some(P) => { B } None => break } } }
     applied only where the unit asks for it (iterators given by shims)."""
     toks = lex(src); m = match_brackets(toks); s = sig(toks)
@@ -761,7 +796,8 @@ def r12_for(src, log):
             expr = src[toks[s[e0]].start:toks[s[j]].start].strip()
             o = s[j]; c = m[o]
             edits.append((toks[i].start, toks[o].end,
-                          "{ let mut it__%d = %s; loop /*@for*/ { match it__%d.next() { Some(%s) => {" % (n, expr, n, pat)))
+                          "{ let mut it__%d = %s%s; loop /*@for*/ { match it__%d.next() { Some(%s) => {"
+                          % (n, ("(" + expr + ")") if into_iter else expr, into_iter, n, pat)))
             edits.append((toks[c].start, toks[c].end, "} None => { break; } } } }"))
             n += 1
     log["R12"] = log.get("R12", 0) + n
@@ -1241,6 +1277,18 @@ def _gen_function(kv, sections, repo, res: UnitResult, variant) -> list:
     for sname, sarg, sline, slines in sections:
         if sname == "sig":
             sig_override = "\n".join(slines)
+    if "stmts" in kv:
+        # a run of whole statements of the body: from the line matching stmts= to the line matching upto= (inclusive)
+        body_text = src[body_a:body_b]
+        m1 = re.search(kv["stmts"], body_text, re.M)
+        m2 = re.search(kv["upto"], body_text[m1.end():], re.M) if m1 else None
+        if not m1 or not m2:
+            raise ExtractError("anchor lost: stmts=/%s/ upto=/%s/ in fn %s" % (kv["stmts"], kv.get("upto"), kv["fn"]))
+        a2 = body_text.rfind("\n", 0, m1.start()) + 1
+        b2 = body_text.find("\n", m1.end() + m2.end())
+        if sig_override is None:
+            raise ExtractError("template: stmts= extraction needs //@sig")
+        body_a, body_b = body_a + a2, body_a + (b2 if b2 >= 0 else len(body_text))
     if "block" in kv or "expr" in kv:
         # sub-span inside the body
         body_text = src[body_a:body_b]
@@ -1269,6 +1317,10 @@ def _gen_function(kv, sections, repo, res: UnitResult, variant) -> list:
     span = _mk_span(kv["file"], src, body_a, body_b, "body of fn " + kv["fn"])
     body = src[body_a:body_b]
     line0 = _line_of(src, body_a)
+    if "stmts" in kv:
+        body = "{\n" + body + (" " + kv["post"] if kv.get("post") else "") + " }"
+        line0 -= 1
+        log["stmts"] = [kv["stmts"], kv["upto"]]
     if "expr" in kv:
         # wrap the expression as a block; optional `post=` text (e.g. returning a local the arms assign) is appended
         body = "{ " + body + (" " + kv["post"] if kv.get("post") else "") + " }"
@@ -1314,6 +1366,12 @@ def _gen_function(kv, sections, repo, res: UnitResult, variant) -> list:
             body = r14_constcall(body, log, set(kv.get("consts", "").split(",")))
         elif r == "R5":
             body = r5_break(body, log)
+        elif r == "R3":
+            body = r3_await(body, log, bool(kv.get("awaitcall")))
+        elif r == "R12":
+            body = r12_for(body, log, kv.get("intoiter", ""))
+        elif r == "R22":
+            body = r22_rpc(body, log)
         elif r == "R19":
             body = r19_any_all(body, log, kv.get("r19kind", "vec"))
         elif r == "R8":
